@@ -121,6 +121,10 @@ func (x *Ctx) errorOnly(ins ssa.Instruction) bool {
 				if isErrT(o.Type()) && !isNilConst(o) && (x.knownNonNilError(o) || x.isErrExtractTested(o, b)) {
 					okRet = true
 				}
+				// the error constructed at `ins` itself is what every return reachable from it carries (through phis)
+				if cv, isCall := ins.(*ssa.Call); isCall && isErrT(o.Type()) && x.knownNonNilError(cv) && x.carriesFrom(o, cv, blk, map[ssa.Value]bool{}) {
+					okRet = true
+				}
 			}
 			if !okRet {
 				return false
@@ -238,7 +242,8 @@ func derivesFromParam(v ssa.Value, seen map[ssa.Value]bool) bool {
 func C19(x *Ctx, r *core.Result) {
 	w := x.W
 	r.Trusted = append(r.Trusted, "the Go compiler's escape analysis (go build -gcflags=-m) as the ground truth for which expressions allocate on the heap",
-		"append / map / channel runtime behaviour: append allocates only when capacity is short")
+		"append / map / channel runtime behaviour: append allocates only when capacity is short",
+		"converting a zero-size or one-byte value to an interface does not allocate (runtime.convT on staticuint64s)")
 	r.Assume = append(r.Assume, "preconditions of the property: a Buffer already used on a document at least as deeply nested, a destination with spare capacity of at least the input length, a handler that does not allocate")
 	a := r.Rule("R19a/b", "every heap-allocation site the compiler reports (escapes to heap / moved to heap) inside a function reachable from the listed entry points, and every append / string concatenation there, is error-path-only or capacity-guarded (grows a caller-provided buffer only when it is too small)")
 	var roots []*ssa.Function
@@ -312,6 +317,10 @@ func C19(x *Ctx, r *core.Result) {
 					s := add(fn, ins, "interface conversion")
 					if x.errorOnly(ins) {
 						s.ok, s.why = true, "error path only"
+					} else if sz := w.Root.TypesSizes.Sizeof(t.X.Type()); sz <= 1 {
+						// the runtime boxes zero-size and one-byte values without allocating (runtime.zeroVal /
+						// runtime.staticuint64s); the compiler's "escapes to heap" does not distinguish them
+						s.ok, s.why = true, fmt.Sprintf("interface conversion of a %d-byte value: boxed from the runtime's static table, no allocation", sz)
 					}
 				case *ssa.Convert:
 					if isStringType(t.Type()) != isStringType(t.X.Type()) {
@@ -452,6 +461,23 @@ func C19(x *Ctx, r *core.Result) {
 					}
 				}
 			}
+			if !ok && strings.HasSuffix(d.msg, "escapes to heap") && allDischarged[fn] {
+				// an implicit conversion to an interface has no position of its own in SSA: the diagnostic is about
+				// one of this function's interface conversions, all of which are discharged (one-byte values, error paths)
+				nMI, okMI := 0, true
+				for _, s := range sites {
+					if _, isMI := s.ins.(*ssa.MakeInterface); isMI && s.fn == fn {
+						nMI++
+						if !s.ok {
+							okMI = false
+						}
+					}
+				}
+				expr := strings.TrimSuffix(d.msg, " escapes to heap")
+				if nMI > 0 && okMI && !strings.HasPrefix(expr, "make(") && !strings.HasPrefix(expr, "new(") && !strings.HasPrefix(expr, "&") && !strings.HasPrefix(expr, "func literal") && !strings.HasPrefix(expr, "[]") && !strings.Contains(expr, "... argument") {
+					ok, why = true, "interface conversion discharged in SSA (no allocation for a value of at most one byte / error path only)"
+				}
+			}
 			if !ok && strings.Contains(d.msg, "... argument") {
 				// variadic argument slice of an error-path call is matched above; otherwise fall through
 			}
@@ -482,3 +508,29 @@ func C19(x *Ctx, r *core.Result) {
 func init() { Registry["C19"] = Prop{"other", C19} }
 
 var _ = types.Identical
+
+
+// carriesFrom: on every way from block cb (where the non-nil error v is made) to the use of o, o is v or another
+// known non-nil error: o is v, or a phi whose edges from predecessors reachable from cb all carry such a value.
+func (x *Ctx) carriesFrom(o, v ssa.Value, cb *ssa.BasicBlock, seen map[ssa.Value]bool) bool {
+	if o == v || x.knownNonNilError(o) {
+		return true
+	}
+	ph, ok := o.(*ssa.Phi)
+	if !ok || seen[ph] {
+		return false
+	}
+	seen[ph] = true
+	n := 0
+	for i, e := range ph.Edges {
+		pred := ph.Block().Preds[i]
+		if pred != cb && !canReach(cb, pred) {
+			continue
+		}
+		n++
+		if !x.carriesFrom(e, v, cb, seen) {
+			return false
+		}
+	}
+	return n > 0
+}
